@@ -11,7 +11,15 @@ Definition dec_op (x : sx) : op :=
   | 1%Z => Write (to_bytes (as_str (nth_sx 1 x)))
   | _ => Flush
   end.
+(* Decompress cases: (-1 is-gzip #sent gunzip-ok #gunzipped) -> (9 ok #seen) *)
+Definition decompress_sx (x : sx) : sx :=
+  let orc := fun _ : bytes => if as_bool (nth_sx 3 x) then Some (to_bytes (as_str (nth_sx 4 x))) else None in
+  match decompress (as_bool (nth_sx 1 x)) (to_bytes (as_str (nth_sx 2 x))) orc with
+  | Some b => SL [SZ 9; SZ 1; SS (of_bytes b)]
+  | None => SL [SZ 9; SZ 0; SS []]
+  end.
 Definition run_sx (x : sx) : sx :=
+  if Z.eqb (as_Z (nth_sx 0 x)) (-1) then decompress_sx x else
   let '(w, ns) := request (Z.to_nat (as_Z (nth_sx 0 x))) [] (as_bool (nth_sx 1 x)) (map dec_op (as_list (nth_sx 2 x))) in
   SL [match w_status w with Some s => of_nat s | None => SZ (-1) end; of_bool (w_ce w); of_bool (w_cl w);
       of_bool (match decode w with Some _ => true | None => false end);
